@@ -97,6 +97,11 @@ CHECKS = {
             "vs the same model with it renamed, for generator-internal names, Python / C keywords and builtins, numpy / math / sympy names "
             "and underscore / digit shapes, in the roles state / parameter / intermediate, numpy + C + jax.",
             "Gallina capture-freedom theorems on validated code + rename-and-compare differential execution"),
+    "C17": ("Theorems (comment items are ignored by the loader mirror for any text and place; annotations and component tags do not "
+            "influence statement order or slot layout - partial: the lexer-level part is outside the item-level model) + correspondence: "
+            "loader mirror on the items of the real parse of base and decorated text; direct: seven decorations x 46 comment strings, "
+            "per-load time limit, layout / membership / numerics compared; three directed lexer-level known findings.",
+            "Gallina loader model with inertness theorems + metamorphic execution on decorated texts"),
 }
 
 def main():
